@@ -40,6 +40,11 @@ def encInters (l : List Inter) : String :=
   let sorted := l.mergeSort (fun x y => strLe x.sect y.sect)
   encList (sorted.map fun it => encList [encStr it.sect, encList (it.atoms.map encStr), encList (it.params.map encStr)])
 
+def encIntersM (l : List Inter) : String :=
+  let sorted := l.mergeSort (fun x y => strLe x.sect y.sect)
+  encList (sorted.map fun it => encList [encStr it.sect, encList (it.atoms.map encStr), encList (it.params.map encStr),
+    match it.pmeta with | some (c, g) => encList [encStr c, encStr g] | none => encList []])
+
 def encNodes (c : Ctx) : String :=
   encList (c.nodes.map fun n => encList [encStr n.1, encAttrs n.2])
 
@@ -126,7 +131,7 @@ def handle (_ : Unit) (toks : List Tok) : Unit × String :=
         let ls ← strs? ls
         match readITP itpIdx itpTab ls with
         | some bs => pure (encList (bs.map fun (k, (_, c)) =>
-            encList [encOptStr k, encList (c.nodes.map fun n => encStr n.1), encInters c.inters]))
+            encList [encOptStr k, encList (c.nodes.map fun n => encStr n.1), encIntersM c.inters]))
         | none => pure "error"
     | [Tok.str "ffdisp", ls] => do
         -- dispatcher only (bodies), table and routes of the FF reader
